@@ -633,6 +633,13 @@ class PE:
                     except Untr as exc:
                         base[idx] = Unk(str(exc))
                     continue
+                if isinstance(tgt, (ast.Tuple, ast.List)) and all(isinstance(x, ast.Name) for x in tgt.elts):
+                    vals = self.eval(s.value)
+                    if not isinstance(vals, (tuple, list)) or len(vals) != len(tgt.elts):
+                        raise Untr("unpacking assignment")
+                    for x, v in zip(tgt.elts, vals):
+                        self.locals[x.id] = v
+                    continue
                 if not isinstance(tgt, ast.Name):
                     raise Untr("assignment target")
                 self.locals[tgt.id] = self.eval(s.value)
